@@ -142,6 +142,21 @@ Theorem discr_one_norm_sq_refuted : exists q blas (axes : list (@axis R)),
 Proof. exact discr_one_refuted. Qed.
 Print Assumptions discr_one_norm_sq_refuted.
 
+(* the same on uniform_discr inputs: [specs] lists, per axis, the number of points n >= 1, the
+   interval a < b and nodes_on_bdry = (bl, br); default weighting, exponent 2.  Then
+   <one, one> = prod (b - a)  and  ||one|| = sqrt(prod (b - a)), under the same side condition. *)
+Theorem uniform_discr_one_norm_is_sqrt_volume_partial : forall q blas (specs : list axspec),
+  specs <> [] -> Forall spec_ok specs ->
+  let axes := map axis_of specs in
+  let one := repeat 1 (npoints axes) in
+  (q_unweighted_skips q = false \/ cell_volume axes <> 1) ->
+  leaf_inner q (LDiscr blas axes LDefault (PFin 2)) one one
+    = Ok (fold_right (fun s acc => (s_b s - s_a s) * acc) 1 specs) /\
+  leaf_norm q (LDiscr blas axes LDefault (PFin 2)) one
+    = Ok (sqrt (fold_right (fun s acc => (s_b s - s_a s) * acc) 1 specs)).
+Proof. exact uniform_discr_one_norm. Qed.
+Print Assumptions uniform_discr_one_norm_is_sqrt_volume_partial.
+
 (* non-vacuity: uniform_discr(0, 1, 3, nodes_on_bdry=True) satisfies every premise *)
 Example discr_premises_satisfiable :
   let axes := [mk_axis 3 0 1 true true] in
